@@ -141,7 +141,8 @@ def compare(prog, comp, layout, K, with_end, st, key, max_paths):
                 n = mdl.eval(nvar, model_completion=True).as_long()
                 inp = [mdl.eval(x, model_completion=True).as_long() for x in bs[:n]]
                 bad = [nm_ for nm_, c in conds if z3.is_false(mdl.eval(c, model_completion=True))]
-                out.append({'input': inp, 'end': with_end, 'detail': '; '.join(bad[:3]), 'ref_code': ref.code, 'mach_code': mach[1][0], 'ref_used_end_pattern': bool(ref.ended)})
+                out.append({'input': inp, 'end': with_end, 'detail': '; '.join(bad[:3]), 'ref_code': ref.code, 'mach_code': mach[1][0], 'ref_used_end_pattern': bool(ref.ended),
+                            'ref_skipped_tail_optional': bool(getattr(ref, 'skipped_tail_optional', False))})
             solver.add(z3.Not(pcB[j]))
         solver.pop()
     d['nontrivial'].append(key + ('/end' if with_end else ''))
@@ -200,16 +201,17 @@ def work(job):
                 continue
             wit += w
         seen = set()
+        wit.sort(key=lambda w: bool(w.get('ref_skipped_tail_optional')))   # witnesses of a listed finding's shape last: they must not use up the report cap
         for w in wit:
-            k = (w['detail'][:40], w['ref_code'], w['mach_code'], w.get('ref_used_end_pattern'))
-            if k in seen or len(seen) >= 3:
+            k = (w['detail'][:40], w['ref_code'], w['mach_code'], w.get('ref_used_end_pattern'), w.get('ref_skipped_tail_optional'))
+            if k in seen or len(seen) >= 6:
                 continue
             seen.add(k)
             machine = absm.Machine(comp.post, layout)
             ta = concrete_ref(prog, layout, w['input'], w['end'])
             tb = m2m.concrete_trace(machine, layout, w['input'], w['end'], start_actions=comp.pctx.start_actions)
             f = {'kind': job.get('kind', 'c01-diff'), 'what': 'compiled machine is not an allowed variant of the procedural reading' + (' at end of input' if w['end'] else ''), 'detail': w['detail'], 'sym': 'input',
-                 'pre': {'state': 0, 'vals': {}, 'strs': {}}, 'bytes': w['input'], 'end': w['end'], 'ref_used_end_pattern': w.get('ref_used_end_pattern'), 'label': job['label'], 'cname': f"K{job['K']}", 'flags': list(comp.flags), 'source': src,
+                 'pre': {'state': 0, 'vals': {}, 'strs': {}}, 'bytes': w['input'], 'end': w['end'], 'ref_used_end_pattern': w.get('ref_used_end_pattern'), 'ref_skipped_tail_optional': w.get('ref_skipped_tail_optional'), 'ref_code': w['ref_code'], 'mach_code': w['mach_code'], 'label': job['label'], 'cname': f"K{job['K']}", 'flags': list(comp.flags), 'source': src,
                  'replay': {'reproduced': True, 'reference': str(ta)[:500], 'machine': str(tb)[:500]}}
             try:
                 calls = [('feed', w['input'])] if w['input'] else []
